@@ -35,7 +35,11 @@ pub fn bin_sequences(wsize: usize, msize: usize, in_path: &str, out_path: &str, 
             let pbar_clone = pbar.clone();
 
             scope.spawn(move |_| {
+                #[cfg(kmertools_verif)]
+                ktio::verif::point("start", 0);
                 loop {
+                    #[cfg(kmertools_verif)]
+                    ktio::verif::point("take", 0);
                     let record = {
                         total_records_clone.fetch_add(1, std::sync::atomic::Ordering::Relaxed);
                         records_arc_clone.lock().unwrap().next()
@@ -47,6 +51,8 @@ pub fn bin_sequences(wsize: usize, msize: usize, in_path: &str, out_path: &str, 
                             MinimiserGenerator::new(&record.seq, wsize, msize)
                         };
                         for (k, s, e) in mgen {
+                            #[cfg(kmertools_verif)]
+                            ktio::verif::point("push", record.n as i64);
                             result_arc_clone
                                 .entry(numeric_to_kmer(k, msize))
                                 .and_modify(|v| v.push((record.id.clone(), s, e)))
@@ -65,6 +71,8 @@ pub fn bin_sequences(wsize: usize, msize: usize, in_path: &str, out_path: &str, 
                         break;
                     }
                 }
+                #[cfg(kmertools_verif)]
+                ktio::verif::point("exit", 0);
             });
         }
     });
@@ -110,7 +118,11 @@ pub fn seq_to_min(wsize: usize, msize: usize, in_path: &str, out_path: &str, thr
             let buff_clone = Arc::clone(&buff);
 
             scope.spawn(move |_| {
+                #[cfg(kmertools_verif)]
+                ktio::verif::point("start", 0);
                 loop {
+                    #[cfg(kmertools_verif)]
+                    ktio::verif::point("take", 0);
                     let record = {
                         total_records_clone.fetch_add(1, std::sync::atomic::Ordering::Relaxed);
                         records_arc_clone.lock().unwrap().next()
@@ -128,6 +140,8 @@ pub fn seq_to_min(wsize: usize, msize: usize, in_path: &str, out_path: &str, thr
                             mins.push(format!("{}:{}-{}", numeric_to_kmer(k, msize), s, e));
                         }
                         mins.push("\n".to_string());
+                        #[cfg(kmertools_verif)]
+                        ktio::verif::point("write", record.n as i64);
                         {
                             buff_clone
                                 .lock()
@@ -147,6 +161,8 @@ pub fn seq_to_min(wsize: usize, msize: usize, in_path: &str, out_path: &str, thr
                         break;
                     }
                 }
+                #[cfg(kmertools_verif)]
+                ktio::verif::point("exit", 0);
             });
         }
     });
